@@ -232,6 +232,21 @@ pub fn hunt_boundary_block(r: &mut Rng, budget: usize) -> Content {
     best
 }
 
+/// block k: a unit of just over 1024 near-uniform bytes tiled over a whole block (just over 1024 literals, for which a
+/// Huffman table does not pay off, everything else matches); block k+1: many literals over the same alphabet, for
+/// which it does. Entropy-table bookkeeping across "literals stored raw" and the next block.
+pub fn tiled_unit_content(r: &mut Rng) -> Content {
+    let sym = *r.pick(&[200u16, 230, 250, 255]);
+    let seed = r.next_u64();
+    let first = r.urange(1025, 1200);
+    let unit = Content::Alphabet { symbols: sym, len: first, seed };
+    let mut parts = vec![Content::Tile { base: Box::new(unit), len: B }];
+    for _ in 0..r.urange(1, 2) {
+        parts.push(Content::Alphabet { symbols: sym, len: *r.pick(&[20_000usize, 90_000, B]), seed });
+    }
+    Content::Concat(parts)
+}
+
 fn gen_job(r: &mut Rng, max_len: usize) -> EncJob {
     let content = match r.below(10) {
         0 => {
@@ -245,20 +260,7 @@ fn gen_job(r: &mut Rng, max_len: usize) -> EncJob {
             let len = *r.pick(&[B - 1, B, B + 1, 2 * B - 1, 2 * B, 2 * B + 1, 3 * B]);
             crate::content::gen_content_len(r, len)
         }
-        5 => {
-            // block k: a unit of just over 1024 near-uniform bytes tiled over a whole block (just over 1024 literals, for
-            // which a Huffman table does not pay off, everything else matches); block k+1: many literals over the same
-            // alphabet, for which it does. Entropy-table bookkeeping across "literals stored raw" and the next block.
-            let sym = *r.pick(&[200u16, 230, 250, 255]);
-            let seed = r.next_u64();
-            let first = r.urange(1025, 1200);
-            let unit = Content::Alphabet { symbols: sym, len: first, seed };
-            let mut parts = vec![Content::Tile { base: Box::new(unit), len: B }];
-            for _ in 0..r.urange(1, 2) {
-                parts.push(Content::Alphabet { symbols: sym, len: *r.pick(&[20_000usize, 90_000, B]), seed });
-            }
-            Content::Concat(parts)
-        }
+        5 => tiled_unit_content(r),
         4 => {
             // blocks of the form H ++ H with H near-incompressible: the second half is one long match, so the block
             // compresses although its (> 1024) literals do not; consecutive blocks share the byte distribution. This is
